@@ -15,7 +15,7 @@ import (
 func init() {
 	register(&Property{
 		ID: "C20",
-		Explanation: "Decides goroutine confinement of torrent state and lock discipline of the session maps, as a may-analysis on the VTA call graph: (R20.1) every field path of the `torrent` struct that the event-loop context (closure of (*torrent).run under non-`go` calls) writes is loop-owned; no function reachable from another goroutine root (exported API methods of Torrent/Session/rpcHandler, every other `go` target, bound methods handed to announcers/handshakers) may read or write it, except under the field's declared lock (bitfield: mBitfield) or after (*torrent).Close() returned; each (accessor, field path) is one obligation; (R20.2) every access to a lock-guarded Session map holds its mutex (torrents, torrentsByInfoHash -> mTorrents; availablePorts -> mPorts; dhtPeerRequests -> mPeerRequests; blocklistTimestamp -> mBlocklist); (R20.3) no send/receive on a torrent command channel and no (*torrent).Close() while mTorrents is write-locked, except in Session.Close; (R20.4) command/response rendezvous between API and loop is complete (K11). NOT decided: absence of deadlock in general; races through aliases that are not field paths of the torrent struct (pointees handed out by value are treated as frozen after publication).",
+		Explanation: "Decides goroutine confinement of torrent state and lock discipline of the session maps, as a may-analysis on the VTA call graph: (R20.1) every field path of the `torrent` struct that the event-loop context (closure of (*torrent).run under non-`go` calls) writes is loop-owned; no function reachable from another goroutine root (exported API methods of Torrent/Session/rpcHandler, every other `go` target, bound methods handed to announcers/handshakers) may read or write it, except under the field's declared lock (bitfield: mBitfield) or after (*torrent).Close() returned; each (accessor, field path) is one obligation; (R20.2) every access to a lock-guarded Session map holds its mutex (torrents, torrentsByInfoHash -> mTorrents; availablePorts -> mPorts; dhtPeerRequests -> mPeerRequests; blocklistTimestamp -> mBlocklist); (R20.3) no send/receive on a torrent command channel and no (*torrent).Close() while mTorrents is write-locked, except in Session.Close; (R20.4) command/response rendezvous between API and loop is complete (K11); (R20.5) mutex fields and the bbolt write transaction (DB.Update/Batch) are lock classes, an edge A->B exists when B is acquired (directly, by a callee transitively, or by the transaction callback) at a point where A is must-held, and the graph has no cycle; (R20.6) the slice returned by Bytes() of the loop-owned torrent.bitfield is only measured, copied or passed to callees that do not let it reach a channel send, a go statement or a heap object (followed through composite literals, interface boxing, closures and module callee parameters; callees outside the module are assumed to use it synchronously); (R20.7) every channel field of a request struct on which the loop replies with a plain send is always made with capacity >= 1 or is only ever received from unconditionally. NOT decided: absence of deadlock in general; races through aliases that are not field paths of the torrent struct (pointees handed out by value are treated as frozen after publication).",
 		RuleText:    commonRuleText,
 		Assumptions: append([]string{"metrics counters/meters, mutexes, atomics and channels are internally synchronised; a field holding one is still subject to the rule when the loop re-assigns the field itself"}, commonAssumptions...),
 		Run:         runC20,
